@@ -660,4 +660,803 @@ def jump (f g delta : Sec) : L Sec :=
         let w := and (mul g' (xor (mul f' (ofNat 3)) (ofNat 28))) (ofNat 31)
         pure (some (steps, f', add g' (mul w f'), d'))) (62, f, g, delta)) >>= fun st => pure st.2.2.2
 
+
+/-! # Extension round (G5): algorithms that were "observed only" so far -/
+
+/-! ## Uint bitwise / negation helpers (src/uint/{bit_not,bit_xor,neg,sub}.rs) -/
+
+/-- `Uint::not` -/
+def unot (n : Nat) (a : List Sec) : L (List Sec) :=
+  forN n (fun i r => do pubIndex i; pure (r ++ [not (limb a i)])) []
+
+/-- `Uint::bitxor` -/
+def ubitxor (n : Nat) (a b : List Sec) : L (List Sec) :=
+  forN n (fun i r => do pubIndex i; pure (r ++ [xor (limb a i) (limb b i)])) []
+
+/-- `Uint::wrapping_sub` -/
+def wrappingSub (n : Nat) (a b : List Sec) : L (List Sec) := do
+  let r ← usbb n a b zero
+  pure r.1
+
+/-- `Uint::wrapping_neg` = `carrying_neg().0` -/
+def wrappingNeg (n : Nat) (a : List Sec) : L (List Sec) := do
+  let r ← uneg n a
+  pure r.1
+
+/-- `Uint::wrapping_neg_if(negate)` = `select(self, self.wrapping_neg(), negate)` -/
+def wrappingNegIf (n : Nat) (a : List Sec) (c : Sec) : L (List Sec) := do
+  let ng ← wrappingNeg n a
+  uselect n a ng c
+
+/-- `Uint::lte` = `gt(lhs, rhs).not()` -/
+def ulte (n : Nat) (a b : List Sec) : L Sec := do
+  let g ← ugt n a b
+  pure (not g)
+
+/-! ## concat / split / resize (src/uint/{concat,split,resize}.rs): only PUBLIC lengths steer them -/
+
+/-- `Uint::concat_mixed(lo: Uint<l>, hi: Uint<h>) -> Uint<o>` -/
+def concatMixed (l h o : Nat) (lo hi : List Sec) : L (List Sec) :=
+  forN (min (l + h) o) (fun i r => do
+    pubCond (decide (i < l))
+    if i < l then do pubIndex i; pure (r.set i (limb lo i))
+    else do pubIndex (i - l); pure (r.set i (limb hi (i - l)))) (zeros o)
+
+/-- `Uint::<n>::split_mixed::<l, h>` -/
+def splitMixed (n l h : Nat) (a : List Sec) : L (List Sec × List Sec) :=
+  forN (min (l + h) n) (fun i st => do
+    pubCond (decide (i < l))
+    pubIndex i
+    if i < l then pure (st.1.set i (limb a i), st.2) else pure (st.1, st.2.set (i - l) (limb a i))) (zeros l, zeros h)
+
+/-- `Uint::<n>::resize::<t>` -/
+def resize (n t : Nat) (a : List Sec) : L (List Sec) :=
+  forN (min t n) (fun i r => do pubIndex i; pure (r.set i (limb a i))) (zeros t)
+
+/-! ## Schoolbook squaring (src/uint/mul.rs:57-130) -/
+
+/-- inner loop `while j < i` (`k = i + j`): mac into `lo` or `hi`; state = ((lo, hi), carry) -/
+def sqInner (n i : Nat) (xi : Sec) (a : List Sec) (lohi : List Sec × List Sec) : L ((List Sec × List Sec) × Sec) :=
+  forN i (fun j st => do
+    pubCond (decide (i + j ≥ n))
+    if i + j ≥ n then do
+      pubIndex (i + j - n); pubIndex j
+      pure ((st.1.1, st.1.2.set (i + j - n) (Sec.mac (limb st.1.2 (i + j - n)) xi (limb a j) st.2).1),
+            (Sec.mac (limb st.1.2 (i + j - n)) xi (limb a j) st.2).2)
+    else do
+      pubIndex (i + j); pubIndex j
+      pure ((st.1.1.set (i + j) (Sec.mac (limb st.1.1 (i + j)) xi (limb a j) st.2).1, st.1.2),
+            (Sec.mac (limb st.1.1 (i + j)) xi (limb a j) st.2).2)) (lohi, zero)
+
+/-- first phase: the strict lower triangle of the grid, `i in 1..n`; the row carry goes to position `2i` -/
+def sqTriangle (n : Nat) (a : List Sec) : L (List Sec × List Sec) :=
+  forRange 1 n (fun i st => do
+    pubIndex i
+    let r ← sqInner n i (limb a i) a st
+    pubCond (decide (2 * i < n))
+    if 2 * i < n then pure (r.1.1.set (2 * i) r.2, r.1.2)
+    else pure (r.1.1, r.1.2.set (2 * i - n) r.2)) (zeros n, zeros n)
+
+/-- one pass of the special-purpose `shl 1`: `(w[i], carry) = ((w[i] << 1) | carry, w[i] >> 63)` for `i < cnt` -/
+def sqDoubleLoop (cnt : Nat) (w : List Sec) (c : Sec) : L (List Sec × Sec) :=
+  forN cnt (fun i st => do
+    pubIndex i
+    pure (st.1.set i (or (shlPub (limb st.1 i) 1) st.2), shrPub (limb st.1 i) 63)) (w, c)
+
+/-- second phase: double `lo`, then `hi[..n-1]`, then `hi[n-1] = carry` -/
+def sqDouble (n : Nat) (lohi : List Sec × List Sec) : L (List Sec × List Sec) := do
+  let lo ← sqDoubleLoop n lohi.1 zero
+  let hi ← sqDoubleLoop (n - 1) lohi.2 lo.2
+  pubIndex (n - 1)
+  pure (lo.1, hi.1.set (n - 1) hi.2)
+
+/-- third phase: the diagonal `x_i²` at position `2i`, its carry added at `2i + 1`; state = ((lo, hi), carry) -/
+def sqDiagonal (n : Nat) (a : List Sec) (lohi : List Sec × List Sec) : L (List Sec × List Sec) :=
+  (forN n (fun i st => do
+    pubIndex i
+    pubCond (decide (2 * i < n))
+    let s1 ← if 2 * i < n then do
+        pubIndex (2 * i)
+        pure ((st.1.1.set (2 * i) (Sec.mac (limb st.1.1 (2 * i)) (limb a i) (limb a i) st.2).1, st.1.2),
+              (Sec.mac (limb st.1.1 (2 * i)) (limb a i) (limb a i) st.2).2)
+      else do
+        pubIndex (2 * i - n)
+        pure ((st.1.1, st.1.2.set (2 * i - n) (Sec.mac (limb st.1.2 (2 * i - n)) (limb a i) (limb a i) st.2).1),
+              (Sec.mac (limb st.1.2 (2 * i - n)) (limb a i) (limb a i) st.2).2)
+    pubCond (decide (2 * i + 1 < n))
+    if 2 * i + 1 < n then do
+      pubIndex (2 * i + 1)
+      pure ((s1.1.1.set (2 * i + 1) (Sec.adc (limb s1.1.1 (2 * i + 1)) s1.2 zero).1, s1.1.2),
+            (Sec.adc (limb s1.1.1 (2 * i + 1)) s1.2 zero).2)
+    else do
+      pubIndex (2 * i + 1 - n)
+      pure ((s1.1.1, s1.1.2.set (2 * i + 1 - n) (Sec.adc (limb s1.1.2 (2 * i + 1 - n)) s1.2 zero).1),
+            (Sec.adc (limb s1.1.2 (2 * i + 1 - n)) s1.2 zero).2)) (lohi, zero)) >>= fun st => pure st.1
+
+/-- `schoolbook_squaring(limbs[n]) -> (lo[n], hi[n])` (`uint_square_limbs`, `square_limbs`) -/
+def squareSchoolbook (n : Nat) (a : List Sec) : L (List Sec × List Sec) := do
+  let t ← sqTriangle n a
+  let d ← sqDouble n t
+  sqDiagonal n a d
+
+/-! ## Fixed-size Karatsuba (src/uint/mul/karatsuba.rs:37-172) and the size dispatch of `split_mul` / `square_wide` -/
+
+/-- the two interleaved borrow chains `l0 = x0 - x1`, `l1 = y1 - y0` (one loop); state = (l0, l0b, l1, l1b) -/
+def karaDiffLoop (h : Nat) (x0 x1 y0 y1 : List Sec) : L (List Sec × Sec × List Sec × Sec) :=
+  forN h (fun i st => do
+    pubIndex i
+    pure (st.1 ++ [(Sec.sbb (limb x0 i) (limb x1 i) st.2.1).1], (Sec.sbb (limb x0 i) (limb x1 i) st.2.1).2,
+          st.2.2.1 ++ [(Sec.sbb (limb y1 i) (limb y0 i) st.2.2.2).1], (Sec.sbb (limb y1 i) (limb y0 i) st.2.2.2).2))
+    ([], zero, [], zero)
+
+/-- `Uint::select(&r, &r.not(), c)` -/
+def notIf (h : Nat) (r : List Sec) (c : Sec) : L (List Sec) := do
+  let nr ← unot h r
+  uselect h r nr c
+
+/-- the `reduce $full_size, $half_size` body of `UintKaratsubaMul::multiply`; `h` = `$half_size`,
+`mulHalf` = `UintKaratsubaMul::<$half_size>::multiply`.  |x0−x1|, |y1−y0|, the sign mask `z1_neg`, ones' complement of
+`z1·b` plus carry-in 1, then the adc chain — every decision is a mask. -/
+def karaMulStep (h : Nat) (mulHalf : List Sec → List Sec → L (List Sec × List Sec)) (lhs rhs : List Sec) :
+    L (List Sec × List Sec) := do
+  let d ← karaDiffLoop h (lhs.take h) (lhs.drop h) (rhs.take h) (rhs.drop h)
+  let l0n ← wrappingNeg h d.1
+  let l0 ← uselect h d.1 l0n d.2.1
+  let l1n ← wrappingNeg h d.2.2.1
+  let l1 ← uselect h d.2.2.1 l1n d.2.2.2
+  let z1 ← mulHalf l0 l1
+  let z1neg := xor d.2.1 d.2.2.2
+  let r0 ← notIf h (zeros h) z1neg
+  let r1 ← notIf h z1.1 z1neg
+  let r2 ← notIf h z1.2 z1neg
+  let r3 ← notIf h (zeros h) z1neg
+  let z0 ← mulHalf (lhs.take h) (rhs.take h)
+  let z2 ← mulHalf (lhs.drop h) (rhs.drop h)
+  let a0 ← uadc h r0 z0.1 (select zero one z1neg)
+  let a1 ← uadc h r1 z0.2 a0.2
+  let a2 ← uadc h a1.1 z0.1 zero
+  let a3 ← uadc h r2 z0.2 (add a1.2 a2.2)
+  let a4 ← uadc h a2.1 z2.1 zero
+  let a5 ← uadc h a3.1 z2.2 a4.2
+  let a6 ← uadc h a5.1 z2.1 zero
+  let a7 ← uadc h r3 z2.2 (add (add a3.2 a5.2) a6.2)
+  let lo ← concatMixed h h (2 * h) a0.1 a4.1
+  let hi ← concatMixed h h (2 * h) a6.1 a7.1
+  pure (lo, hi)
+
+/-- the `reduce $full_size, $half_size` body of `UintKaratsubaMul::square` -/
+def karaSqStep (h : Nat) (sqHalf : List Sec → L (List Sec × List Sec)) (limbs : List Sec) : L (List Sec × List Sec) := do
+  let z0 ← sqHalf (limbs.take h)
+  let z2 ← sqHalf (limbs.drop h)
+  let a0 ← uadc h z0.2 z0.1 zero
+  let a1 ← uadc h z0.2 z2.1 a0.2
+  let a2 ← uadc h a0.1 z2.1 zero
+  let a3 ← uadc h a1.1 z2.2 a2.2
+  let a4 ← uadc h z2.2 (zeros h) (add a1.2 a3.2)
+  let s0 ← usbb h (limbs.take h) (limbs.drop h) zero
+  let l0n ← wrappingNeg h s0.1
+  let l0 ← uselect h s0.1 l0n s0.2
+  let z1 ← sqHalf l0
+  let b1 ← usbb h a2.1 z1.1 zero
+  let b2 ← usbb h a3.1 z1.2 b1.2
+  let b3 ← usbb h a4.1 (zeros h) b2.2
+  let lo ← concatMixed h h (2 * h) z0.1 b1.1
+  let hi ← concatMixed h h (2 * h) b2.1 b3.1
+  pure (lo, hi)
+
+/-- `impl_uint_karatsuba_multiplication!(128, 64, 32, 16, 8)` -/
+def karaMulSizes : List Nat := [128, 64, 32, 16, 8]
+/-- `impl_uint_karatsuba_squaring!(128, 64, 32)` -/
+def karaSqSizes : List Nat := [128, 64, 32]
+/-- the `if LIMBS == …` tests of `Uint::split_mul` / `Uint::square_wide` -/
+def splitMulDispatchSizes : List Nat := [128, 64, 32, 16]
+def squareWideDispatchSizes : List Nat := [128, 64]
+
+/-- `UintKaratsubaMul::<chain.head>::multiply` as the macro generates it: `full, half, rest…` ⇒ the reduce body over
+`half`; a single size ⇒ `uint_mul_limbs`.  The recursion follows the (public, compile-time) chain of sizes. -/
+def karaMulChain : List Nat → List Sec → List Sec → L (List Sec × List Sec)
+  | _ :: half :: rest, x, y => karaMulStep half (karaMulChain (half :: rest)) x y
+  | [s], x, y => mulSchoolbook s s x y
+  | [], _, _ => pure ([], [])
+
+def karaSqChain : List Nat → List Sec → L (List Sec × List Sec)
+  | _ :: half :: rest, x => karaSqStep half (karaSqChain (half :: rest)) x
+  | [s], x => squareSchoolbook s x
+  | [], _ => pure ([], [])
+
+/-- the part of a chain starting at size `n` -/
+def chainFrom (n : Nat) : List Nat → List Nat
+  | [] => []
+  | s :: rest => if s = n then s :: rest else chainFrom n rest
+
+/-- `Uint::<n>::split_mul::<m>`: Karatsuba for equal sizes 16/32/64/128 (`a.resize()` is the no-op copy), else schoolbook.
+The dispatch is on the two (public) limb counts. -/
+def splitMul (n m : Nat) (a b : List Sec) : L (List Sec × List Sec) := do
+  pubCond (decide (n = m ∧ splitMulDispatchSizes.contains n = true))
+  if n = m ∧ splitMulDispatchSizes.contains n = true then do
+    let p ← karaMulChain (chainFrom n karaMulSizes) a b
+    let lo ← resize n n p.1
+    let hi ← resize n n p.2
+    pure (lo, hi)
+  else mulSchoolbook n m a b
+
+/-- `Uint::<n>::square_wide` -/
+def squareWide (n : Nat) (a : List Sec) : L (List Sec × List Sec) := do
+  pubCond (squareWideDispatchSizes.contains n)
+  if squareWideDispatchSizes.contains n = true then do
+    let p ← karaSqChain (chainFrom n karaSqSizes) a
+    let lo ← resize n n p.1
+    let hi ← resize n n p.2
+    pure (lo, hi)
+  else squareSchoolbook n a
+
+/-- `Uint::wrapping_mul` -/
+def wrappingMul (n m : Nat) (a b : List Sec) : L (List Sec) := do
+  let p ← splitMul n m a b
+  pure p.1
+
+/-- `Uint::checked_mul` (`CheckedMul`): `(lo, hi.is_zero())` -/
+def checkedMul (n m : Nat) (a b : List Sec) : L (List Sec × Sec) := do
+  let p ← splitMul n m a b
+  let nz ← isNonzero m p.2
+  pure (p.1, not nz)
+
+/-- `Uint::saturating_mul` -/
+def saturatingMul (n m : Nat) (a b : List Sec) : L (List Sec) := do
+  let p ← splitMul n m a b
+  let nz ← isNonzero m p.2
+  uselect n p.1 (List.replicate n Sec.max) nz
+
+/-- `Uint::checked_square` -/
+def checkedSquare (n : Nat) (a : List Sec) : L (List Sec × Sec) := do
+  let p ← squareWide n a
+  let e ← ueq n p.2 (zeros n)
+  pure (p.1, e)
+
+
+/-! ## Int (src/int/*.rs): two's complement over the same limbs; every sign decision is a mask -/
+
+/-- `Int::MAX.0`, `Int::MIN.0` (= `SIGN_MASK`), `Int::MINUS_ONE.0`: public constants -/
+def intMaxLimbs (n : Nat) : List Sec := (List.replicate n Sec.max).set (n - 1) (ofNat (HALF - 1))
+def intMinLimbs (n : Nat) : List Sec := (zeros n).set (n - 1) (ofNat HALF)
+def umax (n : Nat) : List Sec := List.replicate n Sec.max
+
+/-- `Int::is_negative`: `from_word_msb(most_significant_word)` -/
+def intIsNegative (n : Nat) (a : List Sec) : L Sec := do
+  pubIndex (n - 1)
+  pure (maskMsb (limb a (n - 1)))
+
+/-- `Int::abs_sign`: `(wrapping_neg_if(sign), sign)` -/
+def intAbsSign (n : Nat) (a : List Sec) : L (List Sec × Sec) := do
+  let sign ← intIsNegative n a
+  let abs ← wrappingNegIf n a sign
+  pure (abs, sign)
+
+/-- `Int::new_from_abs_sign(abs, is_negative)`: (value, fits) with
+`fits = lte(abs, MAX) | (is_negative & eq(abs, MIN))` -/
+def intNewFromAbsSign (n : Nat) (abs : List Sec) (neg : Sec) : L (List Sec × Sec) := do
+  let mag ← wrappingNegIf n abs neg
+  let le ← ulte n abs (intMaxLimbs n)
+  let e ← ueq n abs (intMinLimbs n)
+  pure (mag, or le (and neg e))
+
+/-- `Int::overflowing_add`: `(self.msb == rhs.msb) & (self.msb != res.msb)` -/
+def intOverflowingAdd (n : Nat) (a b : List Sec) : L (List Sec × Sec) := do
+  let res ← wrappingAdd n a b
+  let sm ← intIsNegative n a
+  let rm ← intIsNegative n b
+  let zm ← intIsNegative n res
+  pure (res, and (not (xor sm rm)) (xor sm zm))
+
+/-- `Int::checked_add`: (value, is_some) -/
+def intCheckedAdd (n : Nat) (a b : List Sec) : L (List Sec × Sec) := do
+  let r ← intOverflowingAdd n a b
+  pure (r.1, not r.2)
+
+/-- `CheckedSub for Int`: `(self.msb != rhs.msb) & (self.msb != res.msb)` -/
+def intCheckedSub (n : Nat) (a b : List Sec) : L (List Sec × Sec) := do
+  let res ← wrappingSub n a b
+  let sm ← intIsNegative n a
+  let rm ← intIsNegative n b
+  let zm ← intIsNegative n res
+  pure (res, not (and (xor sm rm) (xor sm zm)))
+
+/-- `Int::overflowing_neg` = `(self ^ MAX).overflowing_add(ONE)` -/
+def intOverflowingNeg (n : Nat) (a : List Sec) : L (List Sec × Sec) := do
+  let x ← ubitxor n a (umax n)
+  intOverflowingAdd n x (uone n)
+
+/-- `Int::checked_neg` -/
+def intCheckedNeg (n : Nat) (a : List Sec) : L (List Sec × Sec) := do
+  let r ← intOverflowingNeg n a
+  pure (r.1, not r.2)
+
+/-- `Int::invert_msb` = `bitxor(SIGN_MASK)` -/
+def intInvertMsb (n : Nat) (a : List Sec) : L (List Sec) := ubitxor n a (intMinLimbs n)
+
+/-- `Int::lt` / `ct_lt`: unsigned `lt` of the operands with flipped sign bit -/
+def intLt (n : Nat) (a b : List Sec) : L Sec := do
+  let x ← intInvertMsb n a
+  let y ← intInvertMsb n b
+  ult n x y
+/-- `Int::gt` / `ct_gt` -/
+def intGt (n : Nat) (a b : List Sec) : L Sec := do
+  let x ← intInvertMsb n a
+  let y ← intInvertMsb n b
+  ugt n x y
+/-- `Int::cmp` / `Ord::cmp` -/
+def intCmp (n : Nat) (a b : List Sec) : L Sec := do
+  let x ← intInvertMsb n a
+  let y ← intInvertMsb n b
+  ucmp n x y
+
+/-- `Int::split_mul(rhs: Int<m>)`: sign-magnitude; (lo, hi, negate) -/
+def intSplitMul (n m : Nat) (a b : List Sec) : L (List Sec × List Sec × Sec) := do
+  let x ← intAbsSign n a
+  let y ← intAbsSign m b
+  let p ← splitMul n m x.1 y.1
+  pure (p.1, p.2, xor x.2 y.2)
+
+/-- subtle's `CtOption::and_then(|int| CtOption::new(int, hi.is_zero()))`: the closure receives
+`conditional_select(default, value, is_some)` and the flags are and-ed -/
+def intCheckedFromSplit (n m : Nat) (lo hi : List Sec) (neg : Sec) : L (List Sec × Sec) := do
+  let v ← intNewFromAbsSign n lo neg
+  let sel ← uselect n (zeros n) v.1 v.2
+  let hnz ← isNonzero m hi
+  pure (sel, and (not hnz) v.2)
+
+/-- `CheckedMul<Int<m>> for Int<n>` -/
+def intCheckedMul (n m : Nat) (a b : List Sec) : L (List Sec × Sec) := do
+  let p ← intSplitMul n m a b
+  intCheckedFromSplit n m p.1 p.2.1 p.2.2
+
+/-- `Int::split_mul_uint` / `CheckedMul<Uint<m>> for Int<n>` -/
+def intCheckedMulUint (n m : Nat) (a b : List Sec) : L (List Sec × Sec) := do
+  let x ← intAbsSign n a
+  let p ← splitMul n m x.1 b
+  intCheckedFromSplit n m p.1 p.2 x.2
+
+/-- `Int::widening_mul(rhs: Int<m>) -> Int<n+m>`: `concat_mixed(split_mul).wrapping_neg_if(sign)` -/
+def intWideningMul (n m : Nat) (a b : List Sec) : L (List Sec) := do
+  let x ← intAbsSign n a
+  let y ← intAbsSign m b
+  let p ← splitMul n m x.1 y.1
+  let w ← concatMixed n m (n + m) p.1 p.2
+  wrappingNegIf (n + m) w (xor x.2 y.2)
+
+/-- first loop of `Int::overflowing_shr_vartime`: `limbs[i] = self.limbs[i + shift_num]` into `[base; LIMBS]` -/
+def intShrMoveLoop (n shiftNum : Nat) (a : List Sec) (base : Sec) : L (List Sec) :=
+  forN (n - shiftNum) (fun i r => do
+    pubIndex i; pubIndex (i + shiftNum)
+    pure (r.set i (limb a (i + shiftNum)))) (List.replicate n base)
+
+/-- second loop, `while i > 0 { i -= 1; … }` from `LIMBS - shift_num` down -/
+def intShrCarryLoop (n shiftNum rem : Nat) (l : List Sec) (carry : Sec) : L (List Sec × Sec) :=
+  forDown (n - shiftNum) (fun i st => do
+    pubIndex i
+    pure (st.1.set i (or (shrPub (limb st.1 i) rem) st.2), shlPub (limb st.1 i) (64 - rem))) (l, carry)
+
+/-- `Int::overflowing_shr_vartime(shift)`, the SHIFT IS PUBLIC: arithmetic shift, the sign only enters as the
+fill limb and the first carry (`Limb::select(ZERO, MAX, is_negative)`); (value, is_some) -/
+def intShrVartime (n : Nat) (a : List Sec) (shift : Nat) : L (List Sec × Sec) := do
+  let neg ← intIsNegative n a
+  pubCond (decide (shift ≥ 64 * n))
+  if shift ≥ 64 * n then do
+    let d ← uselect n (zeros n) (umax n) neg
+    pure (d, zero)
+  else do
+    let l ← intShrMoveLoop n (shift / 64) a (select zero Sec.max neg)
+    pubCond (decide (shift % 64 = 0))
+    if shift % 64 = 0 then pure (l, Sec.max) else do
+      let r ← intShrCarryLoop n (shift / 64) (shift % 64) l
+        (xor (select zero Sec.max neg) (shrPub (select zero Sec.max neg) (shift % 64)))
+      pure (r.1, Sec.max)
+
+/-- `Int::overflowing_shr(shift)` with a SECRET shift: the ladder over `overflowing_shr_vartime(1 << i)` -/
+def intOverflowingShr (n : Nat) (a : List Sec) (shift : Sec) : L (List Sec × Sec) := do
+  let r ← forN (shiftBits n) (fun i r => do
+    let sh ← intShrVartime n r (2 ^ i)
+    uselect n r sh.1 (maskLsb (and (shrPub (remConst shift (64 * n)) i) one))) a
+  pure (r, maskLt shift (ofNat (64 * n)))
+
+/-- `Int::wrapping_shr(shift)`: `overflowing_shr(shift).unwrap_or(select(ZERO, MINUS_ONE, is_negative))` -/
+def intWrappingShr (n : Nat) (a : List Sec) (shift : Sec) : L (List Sec) := do
+  let neg ← intIsNegative n a
+  let d ← uselect n (zeros n) (umax n) neg
+  let r ← intOverflowingShr n a shift
+  uselect n d r.1 r.2
+
+/-- `Uint::div_rem` with its statically determined short circuit for one limb (`div_rem_limb`) -/
+def udivRem (n : Nat) (a d : List Sec) : L (List Sec × List Sec) := do
+  pubCond (decide (n = 1))
+  if n = 1 then do
+    pubIndex 0
+    let qr ← divRemLimb n a (limb d 0)
+    pure (qr.1, [qr.2])
+  else divRem n a d
+
+/-- `Int::checked_div_rem(rhs: NonZero<Int>)`: division of the magnitudes, masked re-signing;
+(quotient, is_some, remainder) -/
+def intCheckedDivRem (n : Nat) (a d : List Sec) : L (List Sec × Sec × List Sec) := do
+  let x ← intAbsSign n a
+  let y ← intAbsSign n d
+  let qr ← udivRem n x.1 y.1
+  let q ← intNewFromAbsSign n qr.1 (xor x.2 y.2)
+  let r ← wrappingNegIf n qr.2 x.2
+  pure (q.1, q.2, r)
+
+/-- `Int::checked_div(rhs: &Int)`: `NonZero::new(rhs).and_then(|rhs| checked_div_rem(rhs).0)` — subtle substitutes
+`NonZero::default()` (= ONE) for a zero divisor under a mask; nothing branches on `rhs == 0` -/
+def intCheckedDiv (n : Nat) (a d : List Sec) : L (List Sec × Sec) := do
+  let z ← ueq n d (zeros n)
+  let d' ← uselect n (uone n) d (not z)
+  let r ← intCheckedDivRem n a d'
+  pure (r.1, and r.2.1 (not z))
+
+/-- `Int::checked_div_rem_floor(rhs: NonZero<Int>)` AS WRITTEN (the remainder is re-signed by `opposing_signs`);
+(quotient, is_some, remainder) -/
+def intCheckedDivRemFloor (n : Nat) (a d : List Sec) : L (List Sec × Sec × List Sec) := do
+  let x ← intAbsSign n a
+  let y ← intAbsSign n d
+  let qr ← udivRem n x.1 y.1
+  let opp := xor x.2 y.2
+  let rnz ← isNonzero n qr.2
+  let q1 ← wrappingAdd n qr.1 (uone n)
+  let q ← uselect n qr.1 q1 (and rnz opp)
+  let ir ← wrappingSub n y.1 qr.2
+  let r ← uselect n qr.2 ir (and rnz opp)
+  let qs ← intNewFromAbsSign n q opp
+  let rs ← wrappingNegIf n r opp
+  pure (qs.1, qs.2, rs)
+
+/-- `Int::div_rem_uint(rhs: NonZero<Uint>)` -/
+def intDivRemUint (n : Nat) (a d : List Sec) : L (List Sec × List Sec) := do
+  let x ← intAbsSign n a
+  let qr ← udivRem n x.1 d
+  let q ← wrappingNegIf n qr.1 x.2
+  let r ← wrappingNegIf n qr.2 x.2
+  pure (q, r)
+
+/-- `Int::div_rem_floor_uint(rhs: NonZero<Uint>)` -/
+def intDivRemFloorUint (n : Nat) (a d : List Sec) : L (List Sec × List Sec) := do
+  let x ← intAbsSign n a
+  let qr ← udivRem n x.1 d
+  let rnz ← isNonzero n qr.2
+  let q1 ← wrappingAdd n qr.1 (uone n)
+  let q ← uselect n qr.1 q1 (and rnz x.2)
+  let ir ← wrappingSub n d qr.2
+  let r ← uselect n qr.2 ir (and rnz x.2)
+  let qs ← wrappingNegIf n q x.2
+  pure (qs, r)
+
+
+/-! ## BoxedUint arithmetic (src/uint/boxed/*.rs): the precisions `na`, `nb` are PUBLIC (operands have exactly
+that many limbs); `get(i).unwrap_or(ZERO)` is a bounds test on the public index -/
+
+/-- `BoxedUint::adc` (`fold_limbs`): `max(na, nb)` limbs, the shorter operand padded with zero limbs -/
+def boxedAdc (na nb : Nat) (a b : List Sec) (c : Sec) : L (List Sec × Sec) :=
+  forN (max na nb) (fun i st => do
+    pubCond (decide (i < na)); pubCond (decide (i < nb)); pubIndex i
+    pure (st.1 ++ [(Sec.adc (limb a i) (limb b i) st.2).1], (Sec.adc (limb a i) (limb b i) st.2).2)) ([], c)
+
+/-- `BoxedUint::sbb` (`fold_limbs`) -/
+def boxedSbb (na nb : Nat) (a b : List Sec) (bw : Sec) : L (List Sec × Sec) :=
+  forN (max na nb) (fun i st => do
+    pubCond (decide (i < na)); pubCond (decide (i < nb)); pubIndex i
+    pure (st.1 ++ [(Sec.sbb (limb a i) (limb b i) st.2).1], (Sec.sbb (limb a i) (limb b i) st.2).2)) ([], bw)
+
+/-- `BoxedUint::adc_assign(rhs)`: `self` has `n` limbs, `rhs` has `m ≤ n` -/
+def boxedAdcAssign (n m : Nat) (a b : List Sec) (c : Sec) : L (List Sec × Sec) :=
+  forN n (fun i st => do
+    pubCond (decide (i < m)); pubIndex i
+    pure (st.1.set i (Sec.adc (limb st.1 i) (limb b i) st.2).1, (Sec.adc (limb st.1 i) (limb b i) st.2).2)) (a, c)
+
+/-- `BoxedUint::sbb_assign(rhs)` -/
+def boxedSbbAssign (n m : Nat) (a b : List Sec) (bw : Sec) : L (List Sec × Sec) :=
+  forN n (fun i st => do
+    pubCond (decide (i < m)); pubIndex i
+    pure (st.1.set i (Sec.sbb (limb st.1 i) (limb b i) st.2).1, (Sec.sbb (limb st.1 i) (limb b i) st.2).2)) (a, bw)
+
+/-- `BoxedUint::conditional_adc_assign(rhs, choice)`: `rhs[i] & mask`; returns the carry bit -/
+def boxedCondAdcAssign (n m : Nat) (a b : List Sec) (choice : Sec) : L (List Sec × Sec) :=
+  (forN n (fun i st => do
+    pubCond (decide (i < m)); pubIndex i
+    pure (st.1.set i (Sec.adc (limb st.1 i) (and (limb b i) (select zero Sec.max choice)) st.2).1,
+          (Sec.adc (limb st.1 i) (and (limb b i) (select zero Sec.max choice)) st.2).2)) (a, zero))
+    >>= fun st => pure (st.1, and st.2 one)
+
+/-- `BoxedUint::conditional_sbb_assign(rhs, choice)` -/
+def boxedCondSbbAssign (n m : Nat) (a b : List Sec) (choice : Sec) : L (List Sec × Sec) :=
+  (forN n (fun i st => do
+    pubCond (decide (i < m)); pubIndex i
+    pure (st.1.set i (Sec.sbb (limb st.1 i) (and (limb b i) (select zero Sec.max choice)) st.2).1,
+          (Sec.sbb (limb st.1 i) (and (limb b i) (select zero Sec.max choice)) st.2).2)) (a, zero))
+    >>= fun st => pure (st.1, and st.2 one)
+
+/-- `BoxedUint::wrapping_neg` -/
+def boxedWrappingNeg (n : Nat) (a : List Sec) : L (List Sec) := do
+  let r ← uneg n a
+  pure r.1
+
+/-- `ConditionallyNegatable::conditional_negate`: `wrapping_neg` then `ct_assign` -/
+def boxedConditionalNegate (n : Nat) (a : List Sec) (c : Sec) : L (List Sec) := do
+  let ng ← boxedWrappingNeg n a
+  boxedCtAssign n a ng c
+
+/-- `BoxedUint::is_zero`: `fold(1, |acc, limb| acc & limb.is_zero())` -/
+def boxedIsZero (n : Nat) (a : List Sec) : L Sec :=
+  forN n (fun i acc => do pubIndex i; pure (and acc (maskEq (limb a i) zero))) Sec.max
+
+/-- `ConstantTimeEq for BoxedUint`: `max(na, nb)` limbs, zero padding, `ret &= a.ct_eq(b)` -/
+def boxedCtEq (na nb : Nat) (a b : List Sec) : L Sec :=
+  forN (max na nb) (fun i acc => do
+    pubCond (decide (i < na)); pubCond (decide (i < nb)); pubIndex i
+    pure (and acc (maskEq (limb a i) (limb b i)))) Sec.max
+
+/-- `ConstantTimeLess for BoxedUint`: the borrow of `self.sbb(other)` -/
+def boxedCtLt (na nb : Nat) (a b : List Sec) : L Sec := do
+  let r ← boxedSbb na nb a b zero
+  pure r.2
+/-- `ConstantTimeGreater for BoxedUint` -/
+def boxedCtGt (na nb : Nat) (a b : List Sec) : L Sec := do
+  let r ← boxedSbb nb na b a zero
+  pure r.2
+
+/-- `Ord for BoxedUint`: `ret = Equal; ret.conditional_assign(Greater, gt); ret.conditional_assign(Less, lt)`
+(result as the `i8` of `Ordering` in a word: 0, 1, MAX) -/
+def boxedCmp (na nb : Nat) (a b : List Sec) : L Sec := do
+  let g ← boxedCtGt na nb a b
+  let l ← boxedCtLt na nb a b
+  pure (select (select zero one g) Sec.max l)
+
+/-- `BoxedUint::conditional_set_zero` -/
+def boxedCondSetZero (n : Nat) (a : List Sec) (c : Sec) : L (List Sec) :=
+  forN n (fun i r => do pubIndex i; pure (r.set i (select (limb r i) zero c))) a
+
+/-- `BoxedUint::shr_vartime_into(dest, shift)`, SHIFT PUBLIC; `dest` arrives zeroed; (dest, success) -/
+def boxedShrMoveLoop (n shiftNum : Nat) (a dest : List Sec) : L (List Sec) :=
+  forN (n - shiftNum) (fun i r => do
+    pubIndex i; pubIndex (i + shiftNum)
+    pure (r.set i (limb a (i + shiftNum)))) dest
+
+def boxedShrCarryLoop (n shiftNum rem : Nat) (l : List Sec) : L (List Sec) :=
+  forN (n - shiftNum - 1) (fun i r => do
+    pubIndex i; pubIndex (i + 1)
+    pure (r.set i (or (shrPub (limb r i) rem) (shlPub (limb r (i + 1)) (64 - rem))))) l
+
+def boxedShrVartimeInto (n : Nat) (a dest : List Sec) (shift : Nat) : L (List Sec × Bool) := do
+  pubCond (decide (shift ≥ 64 * n))
+  if shift ≥ 64 * n then pure (dest, false) else do
+    let l ← boxedShrMoveLoop n (shift / 64) a dest
+    pubCond (decide (shift % 64 = 0))
+    if shift % 64 = 0 then pure (l, true) else do
+      let r ← boxedShrCarryLoop n (shift / 64) (shift % 64) l
+      pubIndex (n - shift / 64 - 1)
+      pure (r.set (n - shift / 64 - 1) (shrPub (limb r (n - shift / 64 - 1)) (shift % 64)), true)
+
+/-- `BoxedUint::overflowing_shr_assign(shift)` AS WRITTEN (src/uint/boxed/shr.rs:30-52): like the left shift it
+reduces the SECRET shift with a run-time `%` — a hardware division (finding C01-boxed-shift-modulo-hw-div) -/
+def boxedOverflowingShr (n : Nat) (a : List Sec) (shift : Sec) : L (List Sec × Sec) := do
+  let overflow := not (maskLt shift (ofNat (64 * n)))
+  let qr ← divBy shift (ofNat (64 * n))
+  let r ← forN (shiftBits n) (fun i r => do
+    let sh ← boxedShrVartimeInto n r (zeros n) (2 ^ i)
+    boxedCtAssign n r sh.1 (maskLsb (and (shrPub qr.2 i) one))) a
+  let z ← boxedCondSetZero n r overflow
+  pure (z, overflow)
+
+/-- `BoxedUint::shr1_assign` -/
+def boxedShr1 (n : Nat) (a : List Sec) : L (List Sec) := do
+  pubIndex 0
+  forRange 1 n (fun i r => do
+    pubIndex (i - 1); pubIndex i
+    pure ((r.set (i - 1) (or (limb r (i - 1)) (shlPub (and (limb r i) one) 63))).set i (shrPub (limb r i) 1)))
+    (a.set 0 (shrPub (limb a 0) 1))
+
+/-- `BoxedUint::add_mod_assign` -/
+def boxedAddMod (n : Nat) (a b p : List Sec) : L (List Sec) := do
+  let s ← boxedAdcAssign n n a b zero
+  let d ← boxedSbbAssign n n s.1 p zero
+  let r ← boxedCondAdcAssign n n d.1 p (not (maskEq (Sec.sbb s.2 zero d.2).2 zero))
+  pure r.1
+
+/-- `BoxedUint::sub_mod` -/
+def boxedSubMod (n : Nat) (a b p : List Sec) : L (List Sec) := do
+  let o ← boxedSbb n n a b zero
+  let r ← boxedCondAdcAssign n n o.1 p (not (maskEq o.2 zero))
+  pure r.1
+
+/-- `BoxedUint::neg_mod`: `ret.limbs[i].conditional_assign(&ZERO, is_zero)` -/
+def boxedNegMod (n : Nat) (a p : List Sec) : L (List Sec) := do
+  let z ← boxedIsZero n a
+  let r ← boxedSbb n n p a zero
+  boxedCondSetZero n r.1 z
+
+/-- `BoxedUint::set_bit(index, bit_value)` with SECRET index and value (`i.ct_eq(&limb_num)`) -/
+def boxedSetBit (n : Nat) (a : List Sec) (index bitValue : Sec) : L (List Sec) := setBit n a index bitValue
+
+/-- `BoxedUint::leading_zeros / trailing_zeros / bits / bit`: the slice functions of src/uint/bits.rs, shared with `Uint` -/
+def boxedLeadingZeros (n : Nat) (a : List Sec) : L Sec := leadingZeros n a
+def boxedTrailingZeros (n : Nat) (a : List Sec) : L Sec := trailingZeros n a
+def boxedBits (n : Nat) (a : List Sec) : L Sec := bits n a
+def boxedBit (n : Nat) (a : List Sec) (index : Sec) : L Sec := bit n a index
+
+/-- `trailing_ones(limbs)` (src/uint/bits.rs:97-111; `Uint` and `BoxedUint`) -/
+def trailingOnes (n : Nat) (a : List Sec) : L Sec :=
+  (forN n (fun i st => do
+    pubIndex i
+    pure (add st.1 (and st.2 (tz (not (limb a i)))), and st.2 (maskEq (limb a i) Sec.max))) (zero, Sec.max))
+    >>= fun st => pure st.1
+
+/-- `BoxedUint::inv_mod2k(k)` with SECRET `k`: `bits_precision` iterations, surplus ones masked by `within_range`;
+state = (x, b) -/
+def boxedInvMod2k (n : Nat) (a : List Sec) (k : Sec) : L (List Sec × Sec) := do
+  pubIndex 0
+  let isSome := or (maskEq k zero) (maskLsb (and (limb a 0) one))
+  let st ← forN (64 * n) (fun i st => do
+    pubIndex 0
+    let xi := maskLsb (and (limb st.2 0) one)
+    let bo ← boxedSbbAssign n n st.2 a zero
+    let b1 ← boxedCtAssign n st.2 bo.1 xi
+    let b2 ← boxedShr1 n b1
+    let x' ← boxedSetBit n st.1 (ofNat i) (and xi (maskLt (ofNat i) k))
+    pure (x', b2)) (zeros n, uone n)
+  pure (st.1, isSome)
+
+/-- `BoxedUint::inv_mod2k_vartime(k)`: `k` PUBLIC, exactly `k` iterations, each still branch-free in the value -/
+def boxedInvMod2kVartime (n : Nat) (a : List Sec) (k : Nat) : L (List Sec × Sec) := do
+  pubIndex 0
+  let isSome := or (maskEq (ofNat k) zero) (maskLsb (and (limb a 0) one))
+  let st ← forN k (fun i st => do
+    pubIndex 0
+    let xi := maskLsb (and (limb st.2 0) one)
+    let bo ← boxedSbbAssign n n st.2 a zero
+    let b1 ← boxedCtAssign n st.2 bo.1 xi
+    let b2 ← boxedShr1 n b1
+    let x' ← boxedSetBit n st.1 (ofNat i) xi
+    pure (x', b2)) (zeros n, uone n)
+  pure (st.1, isSome)
+
+/-! ## Boxed Karatsuba (src/uint/mul/karatsuba.rs:174-415): the recursion follows the (public) lengths only -/
+
+/-- `conditional_wrapping_neg_assign(limbs[len], choice)` -/
+def condNegAssign (len : Nat) (l : List Sec) (c : Sec) : L (List Sec) :=
+  (forN len (fun i st => do
+    pubIndex i
+    pure (st.1.set i (Sec.adc (select (limb st.1 i) (not (limb st.1 i)) c) st.2 zero).1,
+          (Sec.adc (select (limb st.1 i) (not (limb st.1 i)) c) st.2 zero).2)) (l, select zero one c))
+    >>= fun st => pure st.1
+
+/-- inner loop of `adc_mul_limbs`: `(out[i+j], carry2) = out[i+j].mac(xi, rhs[j], carry2)`, `j < nr` -/
+def adcMulInner (nr i : Nat) (xi : Sec) (rhs out : List Sec) : L (List Sec × Sec) :=
+  forN nr (fun j st => do
+    pubIndex (i + j); pubIndex j
+    pure (st.1.set (i + j) (Sec.mac (limb st.1 (i + j)) xi (limb rhs j) st.2).1,
+          (Sec.mac (limb st.1 (i + j)) xi (limb rhs j) st.2).2)) (out, zero)
+
+/-- `adc_mul_limbs(lhs[nl], rhs[nr], out[nl + nr]) -> carry` -/
+def adcMulLimbs (nl nr : Nat) (lhs rhs out : List Sec) : L (List Sec × Sec) :=
+  forN nl (fun i st => do
+    pubIndex i
+    let r ← adcMulInner nr i (limb lhs i) rhs st.1
+    pubIndex (i + nr)
+    pure (r.1.set (i + nr) (Sec.adc (limb r.1 (i + nr)) r.2 st.2).1, (Sec.adc (limb r.1 (i + nr)) r.2 st.2).2)) (out, zero)
+
+/-- `while i < hi { (out[i + off], carry) = out[i + off].adc(scratch[i], carry) }` for `i in lo..hi` -/
+def kAddLoop (lo hi off : Nat) (out scratch : List Sec) (c : Sec) : L (List Sec × Sec) :=
+  forRange lo hi (fun i st => do
+    pubIndex (i + off); pubIndex i
+    pure (st.1.set (i + off) (Sec.adc (limb st.1 (i + off)) (limb scratch i) st.2).1,
+          (Sec.adc (limb st.1 (i + off)) (limb scratch i) st.2).2)) (out, c)
+
+/-- the six addition loops shared by `karatsuba_mul_limbs` and `karatsuba_square_limbs`: add `z0·(1 + b)` then
+`z2·(b + b²)` to `out` with `carry` / `carry2` and the three `carry = carry.wrapping_add(carry2)`; `c0` = initial carry -/
+def kCombine (half size : Nat) (out z0 z2 : List Sec) (c0 : Sec) : L (List Sec) := do
+  let a ← kAddLoop 0 size 0 out z0 c0
+  let b ← kAddLoop 0 half half a.1 z0 zero
+  let c ← kAddLoop half size half b.1 z0 (add a.2 b.2)
+  let d ← kAddLoop 0 size half c.1 z2 zero
+  let e ← kAddLoop 0 half size d.1 z2 zero
+  let f ← kAddLoop half size size e.1 z2 (add (add c.2 d.2) e.2)
+  pure f.1
+
+/-- write `new` over `out[start .. start + new.length)` (a slice passed as `&mut out[..]`: public positions) -/
+def setRange (out : List Sec) (start : Nat) (new : List Sec) : List Sec :=
+  out.take start ++ new ++ out.drop (start + new.length)
+
+/-- `while i < out.len() { (out[i], carry) = out[i].adc(ZERO, carry) }` from `lo` -/
+def kPropCarry (lo hi : Nat) (out : List Sec) (c : Sec) : L (List Sec) :=
+  (forRange lo hi (fun i st => do
+    pubIndex i
+    pure (st.1.set i (Sec.adc (limb st.1 i) zero st.2).1, (Sec.adc (limb st.1 i) zero st.2).2)) (out, c))
+    >>= fun st => pure st.1
+
+/-- the trailing-limb passes of `karatsuba_mul_limbs` (`xt`, `yt` non-empty: tests on public lengths) -/
+def kTrail (nl nr size : Nat) (lhs rhs out : List Sec) : L (List Sec) := do
+  pubCond (decide (nl > size))
+  let o1 ← if nl > size then do
+      let r ← adcMulLimbs (nl - size) nr (lhs.drop size) rhs (out.drop size)
+      pure (setRange out size r.1)
+    else pure out
+  pubCond (decide (nr > size))
+  if nr > size then do
+    let r ← adcMulLimbs (nr - size) size (rhs.drop size) (lhs.take size) ((o1.drop size).take (size + (nr - size)))
+    kPropCarry (2 * size + (nr - size)) (nl + nr) (setRange o1 size r.1) r.2
+  else pure o1
+
+/-- `karatsuba_mul_limbs(lhs[nl], rhs[nr], out, scratch)`: returns `out` (`nl + nr` limbs).  `fuel` bounds the recursion
+depth (sizes halve); the split sizes, the recursion and the trailing passes depend on `nl`, `nr` only. -/
+def karaMulLimbs : Nat → Nat → Nat → List Sec → List Sec → L (List Sec)
+  | 0, nl, nr, lhs, rhs => do
+    let r ← adcMulLimbs nl nr lhs rhs (zeros (nl + nr))
+    pure r.1
+  | fuel + 1, nl, nr, lhs, rhs => do
+    pubCond (decide ((if min nl nr % 2 = 1 then min nl nr - 1 else min nl nr) ≤ 24))
+    if (if min nl nr % 2 = 1 then min nl nr - 1 else min nl nr) ≤ 24 then do
+      let r ← adcMulLimbs nl nr lhs rhs (zeros (nl + nr))
+      pure r.1
+    else do
+      let size := if min nl nr % 2 = 1 then min nl nr - 1 else min nl nr
+      let half := size / 2
+      let d ← karaDiffLoop half ((lhs.take size).take half) ((lhs.take size).drop half)
+                ((rhs.take size).take half) ((rhs.take size).drop half)
+      let sc0 ← condNegAssign half d.1 d.2.1
+      let sc1 ← condNegAssign half d.2.2.1 d.2.2.2
+      let z1 ← karaMulLimbs fuel half half sc0 sc1
+      let o1 := setRange (zeros (nl + nr)) half z1
+      let o2 ← condNegAssign (2 * size) (o1.take (2 * size)) (xor d.2.1 d.2.2.2)
+      let z0 ← karaMulLimbs fuel half half ((lhs.take size).take half) ((rhs.take size).take half)
+      let z2 ← karaMulLimbs fuel half half ((lhs.take size).drop half) ((rhs.take size).drop half)
+      let o3 ← kCombine half size (setRange o1 0 o2) z0 z2 zero
+      kTrail nl nr size lhs rhs o3
+
+/-- `out[i] = !out[i]` for `i < cnt` -/
+def kNotLoop (cnt : Nat) (out : List Sec) : L (List Sec) :=
+  forN cnt (fun i r => do pubIndex i; pure (r.set i (not (limb r i)))) out
+
+/-- `square_limbs(limbs[n], out[2n])` -/
+def squareLimbs (n : Nat) (a : List Sec) : L (List Sec) := do
+  let p ← squareSchoolbook n a
+  pure (p.1 ++ p.2)
+
+/-- `karatsuba_square_limbs(limbs[n], out, scratch)`: returns `out` (`2n` limbs) -/
+def karaSquareLimbs : Nat → Nat → List Sec → L (List Sec)
+  | 0, n, a => squareLimbs n a
+  | fuel + 1, n, a => do
+    pubCond (decide (n ≤ 48 ∨ n % 2 = 1))
+    if n ≤ 48 ∨ n % 2 = 1 then squareLimbs n a
+    else do
+      let half := n / 2
+      let s0 ← usbb half (a.take half) (a.drop half) zero
+      let sc0 ← condNegAssign half s0.1 s0.2
+      let z1 ← karaSquareLimbs fuel half sc0
+      let o1 ← kNotLoop (2 * n) (setRange (zeros (2 * n)) half z1)
+      let z0 ← karaSquareLimbs fuel half (a.take half)
+      let z2 ← karaSquareLimbs fuel half (a.drop half)
+      kCombine half n o1 z0 z2 one
+
+/-- `BoxedUint::mul`: Karatsuba from 32 limbs (both operands), else `mul_limbs` (schoolbook); `na + nb` limbs -/
+def boxedMul (na nb : Nat) (a b : List Sec) : L (List Sec) := do
+  pubCond (decide (min na nb ≥ 32))
+  if min na nb ≥ 32 then karaMulLimbs (na + nb) na nb a b
+  else do
+    let p ← mulSchoolbook na nb a b
+    pure (p.1 ++ p.2)
+
+/-- `BoxedUint::square`: Karatsuba from 64 limbs -/
+def boxedSquare (n : Nat) (a : List Sec) : L (List Sec) := do
+  pubCond (decide (n ≥ 64))
+  if n ≥ 64 then karaSquareLimbs n n a else squareLimbs n a
+
+/-- `BoxedUint::wrapping_mul` = `mul(rhs).shorten(self.bits_precision())` -/
+def boxedWrappingMul (na nb : Nat) (a b : List Sec) : L (List Sec) := do
+  let p ← boxedMul na nb a b
+  pure (p.take na)
+
+/-- `CheckedMul for BoxedUint`: fold `choice & limb.is_zero()` over the high limbs -/
+def boxedCheckedMul (na nb : Nat) (a b : List Sec) : L (List Sec × Sec) := do
+  let p ← boxedMul na nb a b
+  let z ← boxedIsZero nb (p.drop na)
+  pure (p.take na, z)
+
 end CB.Leak
